@@ -1,2 +1,99 @@
-(* C24 — placeholder while the harness is brought up; replaced below. *)
-From Mv Require Import Model.Mux.
+(* C23 — Multiplexed streams deliver bytes reliably and in order.
+   Property theorems only; proofs are in Proof/MuxData.v (on top of the
+   invariant I_mux of Proof/Mux*.v).
+
+   Ghost logs of the model (Model/Mux.v): [wlog e] = per stream, the bytes
+   this endpoint has put into data frames (= the bytes counted by the return
+   values of Write); [rlog e] = per stream, the bytes handed to callers of
+   Read.  All statements are for every pair of configurations, every schedule
+   and every stream identifier, with both C24 repairs on. *)
+From Coq Require Import List NArith Bool.
+From Coq Require Import Strings.Byte.
+From Mv Require Import Model.Mux Model.MuxMon Proof.MuxInv Proof.Mux Proof.MuxData.
+Import ListNotations.
+Local Open Scope N_scope.
+
+Definition reachable (ca cb : config) (st : state) : Prop :=
+  cW ca <= maxU64 /\ cW cb <= maxU64 /\
+  exists sched, run all_fixed sched (init ca cb) = Running st.
+
+Lemma reachable_both ca cb st : reachable ca cb st -> Inv st /\ DInv st.
+Proof. intros (Ha & Hb & sched & H). exact (reach_both ca cb sched st Ha Hb H). Qed.
+
+(* bytes read on one side are always a prefix of the bytes written on the other *)
+Theorem c23_prefix :
+  forall ca cb st (s : side) (i : N), reachable ca cb st ->
+    prefix_of (getL i (rlog (ep st (other s)))) (getL i (wlog (ep st s))).
+Proof. intros ca cb st s i H. exact (data_prefix st s i (proj2 (reachable_both ca cb st H))). Qed.
+
+(* isolation: while the reading side has the stream, what it has read, what it
+   buffers and what is in flight for THIS stream is exactly what was written
+   on THIS stream, in order; nothing of any other stream is in between *)
+Theorem c23_isolation :
+  forall ca cb st (s : side) (i : N) (x : stream), reachable ca cb st ->
+    get i (streams (ep st (other s))) = Some x ->
+    getL i (wlog (ep st s)) =
+    getL i (rlog (ep st (other s))) ++ rbuf x ++ flight i (wire_to st (other s)).
+Proof. intros ca cb st s i x H. exact (data_equation st s i x (proj2 (reachable_both ca cb st H))). Qed.
+
+(* end of stream: a Read can return io.EOF only when the peer's close-write or
+   close has been delivered, the buffer is empty and everything written was read *)
+Theorem c23_eof :
+  forall ca cb st (r : side) (i : N) res, reachable ca cb st ->
+    step all_fixed st (AREof r i) = Some res ->
+    exists x, get i (streams (ep st r)) = Some x /\ (rcw x || rc x) = true /\ rbuf x = [] /\
+              getL i (rlog (ep st r)) = getL i (wlog (ep st (other r))).
+Proof.
+  intros ca cb st r i res H.
+  exact (data_eof st r i res (proj1 (reachable_both ca cb st H)) (proj2 (reachable_both ca cb st H))).
+Qed.
+
+(* no duplication, no loss: at quiescence (nothing of the stream in flight,
+   buffer read empty) the two logs are equal *)
+Theorem c23_no_dup_no_loss :
+  forall ca cb st (s : side) (i : N) (x : stream), reachable ca cb st ->
+    get i (streams (ep st (other s))) = Some x -> rbuf x = [] ->
+    has_data i (wire_to st (other s)) = false ->
+    getL i (rlog (ep st (other s))) = getL i (wlog (ep st s)).
+Proof. intros ca cb st s i x H. exact (data_quiescent st s i x (proj2 (reachable_both ca cb st H))). Qed.
+
+(* the close-write frame comes after every data frame: on the wire no data
+   frame of the stream follows its close-write frame, and from the moment the
+   close-write message is handed over no Write can send any more *)
+Theorem c23_closewrite_after_data :
+  forall ca cb st (s : side) (i : N), reachable ca cb st ->
+    cw_last i (wire_to st (other s)) = true /\
+    ((has_cw i (wire_to st (other s)) = true \/ get i (wcs (ep st s)) <> None) ->
+     match get i (streams (ep st s)) with
+     | None => True
+     | Some x => wst x = WGone
+     end).
+Proof. intros ca cb st s i H. exact (cw_after_data st s i (proj1 (reachable_both ca cb st H))). Qed.
+
+(* the checker applied to the Go harness's observations is sound for what it
+   is given literally, and the model's own logs pass it *)
+Theorem c23_checker_sound :
+  forall r w : list N, is_prefix r w = true -> exists rest, w = r ++ rest.
+Proof. exact is_prefix_sound. Qed.
+
+Theorem c23_model_passes :
+  forall ca cb st (s : side) (i : N), reachable ca cb st ->
+    is_prefix (map Byte.to_N (getL i (rlog (ep st (other s)))))
+              (map Byte.to_N (getL i (wlog (ep st s)))) = true.
+Proof. intros ca cb st s i H. exact (model_prefix_check st s i (proj2 (reachable_both ca cb st H))). Qed.
+
+(* Non-vacuity: a reachable state in which bytes were written, partly read and
+   partly still buffered. *)
+Example c23_nontrivial :
+  exists st, reachable {| cW := 4; cBacklog := 2 |} {| cW := 4; cBacklog := 2 |} st
+             /\ getL 1 (wlog (ep st SA)) = [x61; x62; x63]
+             /\ getL 1 (rlog (ep st SB)) = [x61; x62].
+Proof. exact data_example. Qed.
+
+Print Assumptions c23_prefix.
+Print Assumptions c23_isolation.
+Print Assumptions c23_eof.
+Print Assumptions c23_no_dup_no_loss.
+Print Assumptions c23_closewrite_after_data.
+Print Assumptions c23_checker_sound.
+Print Assumptions c23_model_passes.
